@@ -4,6 +4,7 @@ package harness
 // in addition every concurrent result must equal the result of the same script run alone on a fresh node.
 
 import (
+	"bytes"
 	"context"
 	"fmt"
 	"github.com/ipfs/go-unixfsnode/file"
@@ -331,6 +332,11 @@ func TestC17_P_ConcurrentReads(t *testing.T) {
 		ls := st.LinkSystem()
 		c17LS = ls
 		overReified := (kind == "file" || kind == "file-wide") && rapid.IntRange(0, 2).Draw(t, "fileOverReifiedFile") == 0
+		// files are also shared as the preloading reifier returns them (every block fetched up front)
+		reifier := "unixfs"
+		if strings.HasPrefix(kind, "file") && kind != "file-slowroot" && rapid.IntRange(0, 2).Draw(t, "preloadedFile") == 0 {
+			reifier = "unixfs-preload"
+		}
 		fresh := func() datamodel.Node {
 			if kind == "file-slowroot" {
 				pn, err := loadPlain(ls, root)
@@ -343,7 +349,7 @@ func TestC17_P_ConcurrentReads(t *testing.T) {
 				}
 				return n
 			}
-			n, err := loadReified(ls, root, "unixfs")
+			n, err := loadReified(ls, root, reifier)
 			if err != nil {
 				t.Fatalf("harness: reify: %v", err)
 			}
@@ -658,5 +664,64 @@ func TestC17_R_HundredsOfGoroutinesOnASlowStore(t *testing.T) {
 	}
 	if rn.Length() != int64(len(es)) {
 		t.Fatalf("C17: Length() = %d afterwards, want %d", rn.Length(), len(es))
+	}
+}
+
+// A node with thousands of links (a flat file written at a large width) shared by goroutines that all start with a
+// positioned read somewhere else in the file: each gets the bytes at its position.
+func TestC17_R_ConcurrentFirstReadsOnVeryWideNodes(t *testing.T) {
+	for _, c := range []struct{ w, chunks int }{{5000, 4100}, {20000, 20000}} {
+		st := NewStore()
+		st.Yield = true
+		data := lcgBytes(c.chunks*2-1, byte(c.w), 0)
+		root, _, err := buildFile(st, data, "size-2", c.w)
+		if err != nil {
+			t.Fatal(err)
+		}
+		ls := st.LinkSystem()
+		const G = 8
+		for trial := 0; trial < 6; trial++ {
+			n, err := loadReified(ls, root, "unixfs")
+			if err != nil {
+				t.Fatal(err)
+			}
+			var wg sync.WaitGroup
+			start := make(chan struct{})
+			errs := make([]string, G)
+			for g := 0; g < G; g++ {
+				wg.Add(1)
+				go func(g int) {
+					defer wg.Done()
+					<-start
+					p, _ := safe(func() {
+						off := int64((len(data) - 20) * (G - g) / G)
+						rs, err := n.(datamodel.LargeBytesNode).AsLargeBytes()
+						if err != nil {
+							errs[g] = err.Error()
+							return
+						}
+						if _, err := rs.Seek(off, io.SeekStart); err != nil {
+							errs[g] = err.Error()
+							return
+						}
+						buf := make([]byte, 19)
+						k, err := io.ReadFull(rs, buf)
+						if err != nil || !bytes.Equal(buf, data[off:off+19]) {
+							errs[g] = fmt.Sprintf("first read of goroutine %d at %d returned %d bytes %x (err %v), the file has %x there", g, off, k, buf[:k], err, data[off:off+19])
+						}
+					})
+					if p != nil {
+						errs[g] = fmt.Sprintf("panic: %v", p)
+					}
+				}(g)
+			}
+			close(start)
+			c17Wait(&wg, fmt.Sprintf("first positioned reads on a %d-link node", c.chunks))
+			for _, e := range errs {
+				if e != "" {
+					t.Fatalf("C17: %d goroutines on one fresh node of %d links (trial %d): %s", G, c.chunks, trial, e)
+				}
+			}
+		}
 	}
 }
